@@ -15,7 +15,7 @@ def scenarios(tier, seed):
     scs = []
 
     def add(**kw):
-        d = dict(k=0, closer="api", graceful=False, second="", blockWrite=False, slowState=False, restart=False, preGather=False, writer=False)
+        d = dict(k=0, closer="api", graceful=False, second="", blockWrite=False, slowState=False, restart=False, preGather=False, writer=False, tcp=False)
         d.update(kw)
         d["id"] = len(scs) + 1
         scs.append(d)
@@ -33,6 +33,11 @@ def scenarios(tier, seed):
             add(k=k, closer=closer, writer=True, second="close")
         add(k=k, preGather=True)
         add(k=k, preGather=True, graceful=True)
+    for k in (0, 1, 3):   # ICE-TCP: the agent's answer to the peer's check is (or is not) stuck in a blocked stream write
+        for graceful in (False, True):
+            for bw in (False, True):
+                add(k=k, graceful=graceful, blockWrite=bw, tcp=True)
+                add(k=k, graceful=graceful, blockWrite=bw, tcp=True, second="close", slowState=True)
     extra = 60 if tier == "quick" else 1500
     for _ in range(extra):
         closer = rng.choice(["api", "api", "cbstate", "cbcand", "cbpair"])
@@ -51,7 +56,7 @@ def features(pred, lines, idx):
             cfg = b.get("cfg", {})
             break
     f = {"predicate": pred, "ev": e["ev"], "who": e.get("who", ""), "err": e.get("err", "")[:60]}
-    for k in ("closer", "graceful", "second", "blockWrite", "slowState", "restart", "preGather", "writer"):
+    for k in ("closer", "graceful", "second", "blockWrite", "slowState", "restart", "preGather", "writer", "tcp"):
         f["sc_" + k] = cfg.get(k)
     return f, cfg
 
@@ -122,7 +127,9 @@ def c08(tier, seed):
         jp = work.path("job.json")
         json.dump({"scenarios": scs, "out": trace}, open(jp, "w"))
         rc, out, wall = v.run_harness(binary, "TestClose", jp, timeout=600)
-        if rc != 0:
+        if rc == 3:
+            stats["watchdog"] = "the driver stopped at a scenario that hung in real time; its End event carries the verdict"
+        elif rc != 0:
             sys.stderr.write(out[-3000:])
             raise v.Inconclusive("close driver failed (rc %d)" % rc)
         lines = v.read_ndjson(trace)
